@@ -9,7 +9,7 @@ CHUNK = 50
 RULE = ('One evaluation = one seeded history with `gwf touch [targets]` under a clock that ticks between file operations (0-20 ticks per operation) on timestamp grids 1/1024..2 s, arbitrary initial file states (outputs older than inputs, missing intermediates), backward clock jumps before the command. Oracle: every cone output exists, pre-existing contents identical, nothing outside the cone changed (content and mtime), created files empty, hashes recorded, and a following `gwf status` shows every cone target with outputs completed unless a live/failed/cancelled job or a future-dated source excuses it. Sibling visiting order varies through the seeded Target hash.')
 PROFILE = dict(
     nontrivial_probes=['touched_targets_checked'],
-    backends=["slurm", "slurm", "sge", "lsf"],
+    backends=["slurm", "slurm", "sge", "lsf", "local"],
     sizes=[2, 3, 4, 5, 6, 8, 10],
     weights=dict(touch=4, run=1, status=0.5, start=1, finish=1, sched_cancel=0.3, modify_source=1, delete_output=1.5,
                  touch_file=1, set_file=1.5, edit_spec=0.5, advance=1, tick=1, clock_jump=0.4),
